@@ -68,6 +68,9 @@ def piece (s : String) : Option (List UInt8) :=
 def pieces (s : String) : Option (List UInt8) :=
   if s = "-" then some [] else ((s.splitOn ",").mapM piece).map List.flatten
 
+/-- the fuel is a termination device with a structural bound, not a search budget: `cut` calls it only when some cut
+is > 0, so every pass over `cuts` (≤ |cuts| + 1 steps) removes at least one byte of `rest`; at fuel 0 the remainder is
+kept as one segment, nothing is lost. -/
 def cutAux : Nat → List Nat → List Nat → List UInt8 → List (List UInt8) → List (List UInt8)
   | 0, _, _, rest, acc => (if rest.isEmpty then acc else rest :: acc).reverse
   | fuel + 1, all, cur, rest, acc =>
